@@ -366,12 +366,15 @@ func (m *matcher) findMatches(known *knownValue) {
 				if tok.Offset == a[0] {
 					start = i
 				}
-				// The first token of the occurrence can also be its last one
-				// (a single-token value), so this is not an "else".
-				if tok.Offset >= a[len(a)-1]-len(tok.Text) {
-					end = i
+				// The last token of the occurrence is the last one that starts
+				// inside it. (Looking for a token that ends at the end of the
+				// occurrence finds none when the value ends in white space and
+				// stands at the end of the text; end then kept its zero value and
+				// normUnknown[start:end] panicked with start > end.)
+				if tok.Offset >= a[len(a)-1] {
 					break
 				}
+				end = i
 			}
 
 			mrs = append(mrs, searchset.MatchRanges{{
